@@ -8,6 +8,14 @@ COMMON_ASSUME = [
 from extras import pod_features
 
 PROPS = {
+    "C10": {
+        "lean_module": "SplProofs.C10",
+        "streams": ["C10"],
+        "rule": "stream lv: 8 element types ((1,1) (2,2) (3,1) (4,4) (8,8) (16,16) (35,1) zero-sized) x 4 prefix types (16/32/64/128-bit), buffers placed at start offsets 0..15 of a "
+                "16-aligned arena: all-0xff buffers (the prefix type's maximum), every length 0..header+1, random buffers with capacity 0..5, slop bytes, stored length <= cap / cap+1 / "
+                "2^64..2^64+2 / 2^128-1; read-only and mutable opening compared, element address range checked against the arena, size_of incl. overflow; non-trivial = buffer at least header-sized",
+        "assumptions": COMMON_ASSUME + ["element alignment <= 16 in the stream (the theorem covers every alignment up to 2^29)"],
+    },
     "C11": {
         "lean_module": "SplProofs.C11",
         "streams": ["C11"],
